@@ -137,10 +137,16 @@ def build_right(spec):
         for op in rest:
             _apply_extra(p, op)
         return p
-    if k == "scn":  # a processor that is itself the result of compositions
-        p = build_left(spec["scn"]["left"])
-        for st in spec["scn"]["steps"]:
-            p.add(py_mapping(st["map"]), build_right(st["right"]), keep_port=st.get("keep_port", True))
+    if k == "scn":  # a processor that is itself the result of compositions (its inner scenario is checked as a
+        # case of its own by run(); here a failure of the inner construction only invalidates the outer case)
+        try:
+            p = build_left(spec["scn"]["left"])
+            for st in spec["scn"]["steps"]:
+                p.add(py_mapping(st["map"]), build_right(st["right"]), keep_port=st.get("keep_port", True))
+        except GenInvalid:
+            raise
+        except Exception as e:
+            raise GenInvalid(f"nested right-hand side cannot be built: {type(e).__name__}") from e
         return p
     raise ValueError(k)
 
@@ -221,7 +227,118 @@ def observe_proc(p):
     o["raw_out_names"] = list(p.out_port_names) if o["out_names"] is not None else None
     o["has_ps"] = p.post_select_fn is not None
     o["U"] = np.array(p.linear_circuit().compute_unitary(), dtype=complex)
+    o["clist"] = comp_list(p)
     return o
+
+
+def comp_list(p):
+    """[(modes, kind, payload)] of the public component list: ("PS", numeric phase | None when symbolic),
+    ("PERM", perm vector), ("X", None) for anything else.  Used only to *classify* the case (which rewriting rules of
+    the automatic simplification the inserted segment can trigger), never for the verdict."""
+    from perceval.components import PS, PERM
+    out = []
+    try:
+        for r, c in p.components:
+            r = [int(x) for x in r]
+            if isinstance(c, PERM):
+                out.append((r, "PERM", [int(x) for x in c.perm_vector]))
+            elif isinstance(c, PS):
+                phi = c.param("phi")
+                out.append((r, "PS", None if phi.is_variable else float(phi)))
+            else:
+                out.append((r, "X", None))
+    except Exception:   # classification only
+        return []
+    return out
+
+
+def ext_perm(r, pv, m):
+    """permutation of all m modes (input mode i leaves on p[i]) of a PERM placed on modes r"""
+    p = list(range(m))
+    for i, v in enumerate(pv):
+        p[r[0] + i] = r[0] + v
+    return p
+
+
+def segment_shapes(seg, m):
+    """Which simplification-relevant shapes a component segment contains, by tracing light paths (input mode i of a
+    PERM leaves on mode perm[i]; two phase shifters are on one path when every PERM between them carries the one onto
+    the other and no other component touches the path).  `direction-sensitive` = following the path through a PERM
+    the wrong way round (perm instead of perm^-1) would pair the phase shifter differently, i.e. the shape on which
+    a perm/inverse-perm confusion is observable at all."""
+    shapes = set()
+    two_pi = 2 * np.pi
+    for j, (r, k, pay) in enumerate(seg):
+        if k == "PERM":
+            p = ext_perm(r, pay, m)
+            if any(p[p[x]] != x for x in range(m)):
+                shapes.add("simp-perm-asym")
+            if j > 0 and seg[j - 1][1] == "PERM":
+                q = ext_perm(seg[j - 1][0], seg[j - 1][2], m)
+                shapes.add("simp-perm-successive")
+                if [p[q[x]] for x in range(m)] != [q[p[x]] for x in range(m)]:
+                    shapes.add("simp-perm-successive-noncommuting")
+            elif any(s[1] == "PERM" for s in seg[:j]):
+                shapes.add("simp-perm-nonsuccessive")
+            continue
+        if k != "PS" or pay is None:
+            continue
+        if pay % two_pi == 0:
+            shapes.add("simp-ps-null")
+        res = {}
+        for way in ("back", "fwd"):
+            x, crossed, asym, out = r[0], 0, False, ("none",)
+            for i in range(j - 1, -1, -1):
+                ri, ki, pi = seg[i]
+                if ki == "PS" and ri[0] == x:
+                    if pi is not None:
+                        out = ("merge", i)
+                        break
+                elif ki == "PERM":
+                    p = ext_perm(ri, pi, m)
+                    inv = [0] * m
+                    for a, b in enumerate(p):
+                        inv[b] = a
+                    if x in ri:
+                        crossed += 1
+                    if p[x] != inv[x]:
+                        asym = True
+                    x = inv[x] if way == "back" else p[x]
+                elif x in ri:
+                    out = ("blocked", i)
+                    break
+            res[way] = (out, crossed, asym)
+        out, crossed, asym = res["back"]
+        if out[0] == "merge":
+            shapes.add("simp-ps-merge")
+            if crossed:
+                shapes.add("simp-ps-merge-across-perm")
+            if asym:
+                shapes.add("simp-ps-merge-across-asym-perm")
+            if (pay + seg[out[1]][2]) % two_pi == 0:
+                shapes.add("simp-ps-cancel")
+        elif out[0] == "blocked" and crossed:
+            shapes.add("simp-ps-blocked-behind-perm")
+        if res["fwd"][0] != out:
+            shapes.add("simp-ps-direction-sensitive")
+            if res["fwd"][0][0] == "merge" and out[0] != "merge":
+                shapes.add("simp-ps-decoy")
+    return shapes
+
+
+def inserted_segment(L, R, rep):
+    """the segment `PERM, shifted components, PERM^-1` the composition inserts (before simplification), rebuilt from
+    the public component list of the added processor and the PERM the mapping needs"""
+    first = rep.get("min") or 0
+    seg = [([x + first for x in r], k, pay) for r, k, pay in R.get("clist", [])]
+    pv = rep.get("perm")
+    if pv is not None:
+        inv = [0] * len(pv)
+        for a, b in enumerate(pv):
+            inv[b] = a
+        rng_ = list(range(first, first + len(pv)))
+        seg = [(rng_, "PERM", list(pv))] + seg + [(rng_, "PERM", inv)]
+    return seg
 
 
 def observe_right(r):
@@ -229,7 +346,7 @@ def observe_right(r):
     if isinstance(r, pcvl.AProcessor):
         return observe_proc(r)
     return {"comp": True, "m": r.m, "cs": r.m, "heralds": [], "dets": [], "outp": [], "inp": [],
-            "in_names": [""] * r.m, "raw_in_names": [""] * r.m, "has_ps": False,
+            "in_names": [""] * r.m, "raw_in_names": [""] * r.m, "has_ps": False, "clist": [],
             "U": np.array(r.compute_unitary(), dtype=complex)}
 
 
